@@ -367,8 +367,11 @@ def showPaths (ps : List (List Nat)) : String := if ps.isEmpty then "-" else " "
 
 /-- path-search verbs on a slot -/
 def algo (sl : Slot) (verb : String) (args : List String) : Option (List String) :=
+  -- the hop-count searches see a multigraph / weighted graph through `asLabeledGraph()`: the same lists
   let simple : Option (Bool × G Int) := match sl with
     | .gr und g => some (und, g)
+    | .mg und m => if verb == "dijkstra" then none else some (und, ⟨true, m.g.size, m.g.adj, m.g.edgeNumber, []⟩)
+    | .wg und w => if verb == "dijkstra" then none else some (und, w.g)
     | _ => none
   match verb, args, simple, sl with
   | "bfs", [s], some (_, g), _ => do
